@@ -245,6 +245,13 @@ Definition too_large (b : bytes) : bool :=
     else long (h - 247)
   end.
 
+(* what an object decoded from b is hashed over: the encoding of its VALUE, not the
+   bytes it was read from *)
+Definition hash_preimage (s : schema) (b : bytes) : option bytes :=
+  bind (decode_t s b) (encode_t s).
+Definition hash_of (H : bytes -> bytes) (s : schema) (b : bytes) : option bytes :=
+  option_map H (hash_preimage s b).
+
 (* Stream.Decode on a reader limited to the input: the first value only *)
 Definition decode_stream_t (s : schema) (b : bytes) : option (value * bytes) :=
   if negb (bytes_ok b) then None else
@@ -295,7 +302,12 @@ Inductive case :=
 (* rejected by rlp.DecodeBytes (stream = false) or by a Stream limited to the
    input (stream = true); cls = the error was ErrValueTooLarge ("value size
    exceeds available input length") *)
-| CRej (ty : N) (stream : bool) (b : bytes) (cls : bool).
+| CRej (ty : N) (stream : bool) (b : bytes) (cls : bool)
+(* the accepted input b of a type whose hash is the digest of its encoding
+   (Transaction, SlashData): p = the byte string whose keccak256 the decoded
+   object's Hash() is ([] = neither the input nor the re-encoding).  The hash is a
+   function of the VALUE: p must be the encoding of the decoded value. *)
+| CHash (ty : N) (b : bytes) (p : bytes).
 
 Definition opt_bytes_eqb (a b : option bytes) : bool :=
   match a, b with
@@ -344,6 +356,11 @@ Definition case_ok (t : table) (c : case) : bool :=
         (len rest =? n) && opt_bytes_eqb (encode_t s v) (Some b')
       | _, _ => false
       end
+    end
+  | CHash ty b p =>
+    match lookup t ty with
+    | None => false
+    | Some s => opt_bytes_eqb (hash_preimage s b) (Some p)
     end
   | CRej ty stream b cls =>
     match lookup t ty with
